@@ -90,7 +90,7 @@ class Schema:
 
 
 def features(trad: bool) -> S.Features:
-    return S.Features(extensible=not trad, ext_arrays=not trad, max_defs=5, bits_budget=400)
+    return S.Features(extensible=not trad, ext_arrays=not trad, max_defs=5, bits_budget=400, subdirs=True)
 
 
 def schema_of(unit: Unit, style: render_bp.Style, trailer: Optional[str], group: int = 0, differs: str = "") -> Schema:
